@@ -12,13 +12,14 @@ mod c07;
 mod c08;
 mod c09;
 mod c10;
+mod c13;
 
 use serde_json::{Value, json};
 use std::time::Instant;
 use util::*;
 
 fn props() -> Vec<PropDef> {
-    vec![c02::DEF, c03::DEF, c04::DEF, c05::DEF, c06::DEF, c07::DEF, c08::DEF, c09::DEF, c10::DEF]
+    vec![c02::DEF, c03::DEF, c04::DEF, c05::DEF, c06::DEF, c07::DEF, c08::DEF, c09::DEF, c10::DEF, c13::DEF]
 }
 
 fn arg(args: &[String], name: &str) -> Option<String> {
